@@ -25,6 +25,8 @@ struct State {
     last_point: Vec<&'static str>,
     turn: Option<usize>,
     free_run: bool,
+    /// the run was given up through `ABORT_RUN`: parked threads unwind instead of going on
+    abort: bool,
 }
 
 pub struct Sched {
@@ -38,6 +40,18 @@ thread_local! {
 
 thread_local! {
     static MUTED: std::cell::Cell<bool> = std::cell::Cell::new(false);
+}
+
+/// (additive, C02 round 7) The scheduler identity of the calling thread (None = unmanaged).  A managed thread that
+/// spawns an OS thread and then blocks in `join` can hand its identity over with `adopt`: the spawned thread then parks
+/// at the yield points in the PARENT's slot (the parent is inside `join`, not at a point), i.e. "a thread that starts
+/// during the race" is interleaved like any other step of the parent.
+pub fn current() -> Option<(Arc<Sched>, usize)> {
+    ME.with(|m| m.borrow().clone())
+}
+/// see `current`
+pub fn adopt(me: Option<(Arc<Sched>, usize)>) {
+    ME.with(|m| *m.borrow_mut() = me);
 }
 
 /// Runs `f` on the calling (managed) thread without parking at the yield points inside it: the whole of `f`
@@ -59,6 +73,14 @@ pub fn muted<R>(f: impl FnOnce() -> R) -> R {
 /// them has switched them on; for every other stream they are part of the grant that is running.
 pub static GAUGE_CAS_POINTS: std::sync::atomic::AtomicBool = std::sync::atomic::AtomicBool::new(false);
 
+/// Set (by a stream's memory-safety oracle, C05: "a value was destroyed while another managed thread is still pinned")
+/// to give the current run up WITHOUT letting any managed thread execute another instruction of the code under test:
+/// before its next grant the controller ends the run (`timed_out`), and every managed thread unwinds out of the yield
+/// point it is parked at (`resume_unwind`, caught by the thread wrapper: the thread is reported in `panicked`), instead
+/// of running free as after a deadlock / time-out — a thread that would walk into freed memory must not be resumed.
+/// Reset at the start of every run; never set by the scheduler itself.
+pub static ABORT_RUN: std::sync::atomic::AtomicBool = std::sync::atomic::AtomicBool::new(false);
+
 fn hook(id: &'static str) {
     if MUTED.with(|m| m.get()) {
         return;
@@ -78,6 +100,10 @@ impl Sched {
         if st.free_run {
             return;
         }
+        if st.abort {
+            drop(st);
+            std::panic::resume_unwind(Box::new("run aborted (sched::ABORT_RUN)"));
+        }
         st.status[t] = Status::Parked(id);
         // `spin:`  = parked after a failed wait condition: blocked until another thread moves.
         // `spin0:` = head of a retry loop (condition not yet evaluated): blocked only when the thread comes
@@ -87,8 +113,13 @@ impl Sched {
         }
         st.last_point[t] = id;
         self.cv.notify_all();
-        while st.turn != Some(t) && !st.free_run {
+        while st.turn != Some(t) && !st.free_run && !st.abort {
             st = self.cv.wait(st).unwrap();
+        }
+        if st.abort {
+            st.status[t] = Status::Running;
+            drop(st);
+            std::panic::resume_unwind(Box::new("run aborted (sched::ABORT_RUN)"));
         }
         if st.turn == Some(t) {
             st.turn = None;
@@ -124,9 +155,10 @@ pub fn run(bodies: Vec<Box<dyn FnOnce() + Send + 'static>>, schedule: &[usize]) 
 pub fn run_deadline(bodies: Vec<Box<dyn FnOnce() + Send + 'static>>, schedule: &[usize], deadline_s: u64) -> RunResult {
     let n = bodies.len();
     let s = Arc::new(Sched {
-        st: Mutex::new(State { status: vec![Status::Running; n], spin_blocked: vec![false; n], last_point: vec![""; n], turn: None, free_run: false }),
+        st: Mutex::new(State { status: vec![Status::Running; n], spin_blocked: vec![false; n], last_point: vec![""; n], turn: None, free_run: false, abort: false }),
         cv: Condvar::new(),
     });
+    ABORT_RUN.store(false, std::sync::atomic::Ordering::SeqCst);
     metrics::verif::set_hook(Some(hook));
     let mut handles = vec![];
     for (t, body) in bodies.into_iter().enumerate() {
@@ -162,6 +194,12 @@ pub fn run_deadline(bodies: Vec<Box<dyn FnOnce() + Send + 'static>>, schedule: &
             break;
         }
         if st.status.iter().all(|x| *x == Status::Finished) {
+            break;
+        }
+        if ABORT_RUN.load(std::sync::atomic::Ordering::SeqCst) {
+            res.timed_out = true;
+            st.abort = true;
+            s.cv.notify_all();
             break;
         }
         let limit = GRANT_LIMIT.load(std::sync::atomic::Ordering::Relaxed);
